@@ -32,9 +32,9 @@ func init() {
 		Exhaustive: true,
 		Scope: func(tier string) string {
 			if tier == "thorough" {
-				return "6 fixed regression cases; family A (N=5, parents {0,1}, children {2,3,4}, refs {2,3,4,nil}, 88 op tokens): every sequence of <=3 ops in which a Pre-violating op is followed by at most one more (non-sort) op, plus after each of 4 preludes every Pre-respecting continuation of <=3 ops under the identity and the reversed comparator; family B (N=3, every node parent/child/ref, nil child and nil ref, 174 op tokens): every such sequence of <=3 ops plus every Pre-respecting sequence of 4 ops whose first op acts on parent 0; 400000 random sequences (N 3..7, 1..40 ops, 15% with one Pre-violating op followed by <=5 non-sort ops; comparators: identity / keyed with ties / arbitrary table)"
+				return "6 fixed regression cases; family A (N=5, parents {0,1}, children {2,3,4}, refs {2,3,4,nil}, 88 op tokens): every sequence of <=3 ops in which a Pre-violating op is followed by at most one more (non-sort) op, plus after each of 4 preludes every Pre-respecting continuation of <=3 ops under the identity and the reversed comparator; family B (N=3, every node parent/child/ref, nil child and nil ref, 174 op tokens): every such sequence of <=3 ops plus every Pre-respecting sequence of 4 ops whose first op acts on parent 0; family W (1500 cases); 400000 random sequences (N 3..7, 1..40 ops, 15% with one Pre-violating op followed by <=5 non-sort ops; comparators: identity / keyed with ties / arbitrary table)"
 			}
-			return "6 fixed regression cases; family A (N=5, parents {0,1}, children {2,3,4}, refs {2,3,4,nil}, 88 op tokens): every sequence of <=3 ops in which a Pre-violating op is followed by at most one more (non-sort) op; family B (N=3, every node parent/child/ref, nil child and nil ref, 174 op tokens): every such sequence of <=3 ops; 20000 random sequences (N 3..7, 1..40 ops, 15% with one Pre-violating op followed by <=5 non-sort ops; comparators: identity / keyed with ties / arbitrary table)"
+			return "6 fixed regression cases; family A (N=5, parents {0,1}, children {2,3,4}, refs {2,3,4,nil}, 88 op tokens): every sequence of <=3 ops in which a Pre-violating op is followed by at most one more (non-sort) op; family B (N=3, every node parent/child/ref, nil child and nil ref, 174 op tokens): every such sequence of <=3 ops; family W (one parent with 11..35 children: sorted under reversed / tie-rich / permuted comparators, mutated at head, tail and middle, sorted again; 60 cases); 20000 random sequences (N 3..7, 1..40 ops, 15% with one Pre-violating op followed by <=5 non-sort ops; comparators: identity / keyed with ties / arbitrary table)"
 		},
 	})
 	register(&Component{
@@ -59,11 +59,14 @@ type astOp struct {
 	p, v, c int  // node ids; -1 = nil (also for the fields an op kind does not use)
 }
 
+// node ids are single characters: 0..9, then A..Z for 10..35 (never 'n', which is nil)
+const astIdChars = "0123456789ABCDEFGHIJKLMNOPQRSTUVWXYZ"
+
 func astDig(i int) string {
 	if i < 0 {
 		return "n"
 	}
-	return string(rune('0' + i))
+	return astIdChars[i : i+1]
 }
 
 func (o astOp) String() string {
@@ -91,10 +94,11 @@ func astParseDig(ch byte, n int, nilOK bool) int {
 	if ch == 'n' && nilOK {
 		return -1
 	}
-	if ch < '0' || int(ch-'0') >= n {
+	i := strings.IndexByte(astIdChars, ch)
+	if i < 0 || i >= n {
 		panic("bad ast node id " + string(ch))
 	}
-	return int(ch - '0')
+	return i
 }
 
 func astParseOps(s string, n int) []astOp {
@@ -350,9 +354,9 @@ func astDigits(l []int, reverse bool) string {
 	b := make([]byte, len(l))
 	for i, x := range l {
 		if reverse {
-			b[len(l)-1-i] = byte('0' + x)
+			b[len(l)-1-i] = astIdChars[x]
 		} else {
-			b[i] = byte('0' + x)
+			b[i] = astIdChars[x]
 		}
 	}
 	return string(b)
@@ -444,7 +448,7 @@ func (h *astHeap) exec(o astOp, cmp func(a, b int) int) (kind string, msg string
 
 // astChain: ids of a sibling chain as digits; at most N+1 nodes, then '*' if the chain goes on
 type astChain struct {
-	b [11]byte
+	b [40]byte
 	n int
 }
 
@@ -459,7 +463,7 @@ func (c *astChain) eq(l []int, reverse bool) bool {
 		if reverse {
 			j = len(l) - 1 - i
 		}
-		if c.b[j] != byte('0'+x) {
+		if c.b[j] != astIdChars[x] {
 			return false
 		}
 	}
@@ -476,7 +480,7 @@ type astObs struct {
 func (h *astHeap) chain(c *astChain, cur ast.Node, forward bool) {
 	c.n = 0
 	for k := 0; cur != nil && k < len(h.pool)+1; k++ {
-		c.b[c.n] = byte('0' + h.id(cur))
+		c.b[c.n] = astIdChars[h.id(cur)]
 		c.n++
 		if forward {
 			cur = cur.NextSibling()
@@ -515,7 +519,7 @@ func astIdCh(i int) string {
 	if i < 0 {
 		return "-"
 	}
-	return "0123456789"[i : i+1]
+	return astIdChars[i : i+1]
 }
 
 var astClauses = []string{"children-forward", "children-backward", "parent", "childcount", "haschildren", "sibling-links"}
@@ -576,7 +580,7 @@ func astCheck(obs []astObs, s *astSpec, ops []astOp) []OracleFail {
 func implAst(c Case) ImplResult {
 	var r ImplResult
 	n, err := strconv.Atoi(c.Args[0])
-	if err != nil || n < 1 || n > 9 {
+	if err != nil || n < 1 || n > 36 {
 		panic("bad pool size " + c.Args[0])
 	}
 	cmp := astCmpFn(c.Args[1], n)
@@ -873,6 +877,74 @@ func genAst(tier string, rng *RNG, emit func(Case)) {
 				emit(c)
 			}
 		})
+	}
+	// family W (wide): ONE parent with 11..35 children (a sort that switches algorithm with the list length, a relink
+	// that forgets an end of a long list), sorted under a keyed comparator with ties / the reversed order / a random
+	// permutation, then mutated at the head, the tail and in the middle, sorted again
+	nwide := 60
+	if thorough {
+		nwide = 1500
+	}
+	for i := 0; i < nwide; i++ {
+		n := 12 + rng.Intn(24) // pool size; node 0 is the parent
+		kids := n - 1 - rng.Intn(2)
+		key := make([]int, n)
+		switch i % 3 {
+		case 0:
+			for j := range key {
+				key[j] = n - j // reversed: the head certainly moves
+			}
+		case 1:
+			for j := range key {
+				key[j] = rng.Intn(4) // many ties
+			}
+		default:
+			for j := range key {
+				key[j] = j
+			}
+			for j := n - 1; j > 0; j-- {
+				k := rng.Intn(j + 1)
+				key[j], key[k] = key[k], key[j]
+			}
+		}
+		tab := astCmpFromKeys(key)
+		cmp := astCmpFn(tab, n)
+		sp := newAstSpec(n)
+		var ops []astOp
+		do := func(o astOp) {
+			if sp.pre(o) {
+				sp.apply(o, cmp)
+				ops = append(ops, o)
+			}
+		}
+		for c := 1; c <= kids; c++ {
+			do(astOp{k: 'a', p: 0, v: -1, c: c})
+		}
+		do(astOp{k: 's', p: 0, v: -1, c: -1})
+		for k := 0; k < 6; k++ {
+			kp := sp.kids[0]
+			if len(kp) < 3 {
+				break
+			}
+			var o astOp
+			switch rng.Intn(6) {
+			case 0:
+				o = astOp{k: 'd', p: 0, v: -1, c: kp[0]} // remove the head
+			case 1:
+				o = astOp{k: 'd', p: 0, v: -1, c: kp[len(kp)-1]} // remove the tail
+			case 2:
+				o = astOp{k: 'b', p: 0, v: kp[0], c: kp[len(kp)/2]} // move a middle child in front of the head
+			case 3:
+				o = astOp{k: 'f', p: 0, v: kp[len(kp)-1], c: kp[1]} // move the second child behind the tail
+			case 4:
+				o = astOp{k: 'r', p: 0, v: kp[0], c: kp[len(kp)-1]} // replace the head by the tail
+			default:
+				o = astOp{k: 's', p: 0, v: -1, c: -1}
+			}
+			do(o)
+		}
+		do(astOp{k: 's', p: 0, v: -1, c: -1})
+		emit(Case{Op: "run", Args: []string{strconv.Itoa(n), tab, astJoin(ops)}})
 	}
 	// random stream
 	nrand := 20000
